@@ -382,6 +382,115 @@ def _has_stmt_effects(fnode):
     return False
 
 
+def _bool_returns_only(body):
+    """All returns of the helper are `return True` / `return False`, none inside the body of a try, a with or a loop (handlers and else/orelse parts are fine)."""
+    def walk(stmts, guarded):
+        for s in stmts:
+            if isinstance(s, ast.Return):
+                if guarded or not (isinstance(s.value, ast.Constant) and isinstance(s.value.value, bool)):
+                    return False
+            elif isinstance(s, (ast.For, ast.While, ast.AsyncFor, ast.With, ast.AsyncWith)):
+                if _has_return(s):
+                    return False
+            elif isinstance(s, ast.Try):
+                if not walk(s.body, True):
+                    return False
+                for h in s.handlers:
+                    if not walk(h.body, guarded):
+                        return False
+                if not walk(s.orelse, guarded) or not walk(s.finalbody, True):
+                    return False
+            elif isinstance(s, ast.If):
+                if not walk(s.body, guarded) or not walk(s.orelse, guarded):
+                    return False
+            elif isinstance(s, (ast.FunctionDef, ast.AsyncFunctionDef, ast.ClassDef)):
+                continue
+        return True
+    return walk(body, False)
+
+
+def _has_jump(stmts):
+    """break / continue that would bind to an enclosing loop of the caller"""
+    def walk(n):
+        for ch in ast.iter_child_nodes(n):
+            if isinstance(ch, (ast.Break, ast.Continue)):
+                return True
+            if isinstance(ch, (ast.For, ast.While, ast.AsyncFor, ast.FunctionDef, ast.AsyncFunctionDef, ast.ClassDef, ast.Lambda)):
+                continue
+            if walk(ch):
+                return True
+        return False
+    return any(isinstance(s, (ast.Break, ast.Continue)) or (not isinstance(s, (ast.For, ast.While, ast.AsyncFor, ast.FunctionDef, ast.AsyncFunctionDef, ast.ClassDef)) and walk(s))
+               for s in stmts)
+
+
+def _thread_if(repo, caller, s, known, caller_names, stack, stats):
+    """`if self.h(x): A else: B` where h only returns True / False after doing some work (a try/except probe): the body of h is shown in place of
+    the test, `return True` continuing with A and `return False` with B."""
+    if not isinstance(s, ast.If):
+        return None
+    test, neg = s.test, False
+    if isinstance(test, ast.UnaryOp) and isinstance(test.op, ast.Not):
+        test, neg = test.operand, True
+    if not isinstance(test, ast.Call):
+        return None
+    callee, is_method = _resolve(repo, caller, test, known)
+    if callee is None or callee.ref in stack or len(stack) >= MAX_DEPTH:
+        return None
+    body0 = _strip_doc(list(callee.orig_node.body if hasattr(callee, 'orig_node') else callee.node.body))
+    if _pred_expr(clone(body0)) is not None or not _bool_returns_only(body0) or not _ends_in_return(body0):
+        return None
+    A, B = (s.orelse, s.body) if neg else (s.body, s.orelse)
+    if _has_jump(A) or _has_jump(B):
+        return None
+    try:
+        binds = _bind(callee, test, is_method)
+    except _NoInline:
+        return None
+    from .normalize import _Subst, _path, _stores
+    body = clone(body0)
+    loc_ = _locals_of(callee.node)
+    same = {p for p, a in binds if isinstance(a, ast.Name) and a.id == p}
+    mapping = {n: f'{n}__{callee.name.strip("_")}' for n in loc_ if n in caller_names and n not in same and n != 'self'}
+    if mapping:
+        rn = _Renamer(mapping)
+        body = [rn.visit(b) for b in body]
+    rebinds = _stores(callee.node)
+    pre, subst = [], {}
+    for p, a in binds:
+        if p in same:
+            continue
+        if _path(a) and rebinds.get(p, 0) <= 2 and not isinstance(a, ast.Constant):
+            subst[mapping.get(p, p)] = a
+            continue
+        pre.append(ast.copy_location(ast.Assign(targets=[ast.Name(id=mapping.get(p, p), ctx=ast.Store())], value=a), s))
+    if subst:
+        tr = _Subst(subst, set())
+        body = [tr.visit(b) for b in body]
+
+    def repl(stmts):
+        out = []
+        for st in stmts:
+            if isinstance(st, ast.Return):
+                out.extend(clone(A if st.value.value else B))
+                out.append(ast.copy_location(ast.Break(), st))
+                continue
+            for field in ('body', 'orelse', 'finalbody'):
+                v = getattr(st, field, None)
+                if isinstance(v, list) and v and isinstance(v[0], ast.stmt) and not isinstance(st, (ast.FunctionDef, ast.AsyncFunctionDef, ast.ClassDef, ast.For, ast.While)):
+                    setattr(st, field, repl(v))
+            if isinstance(st, ast.Try):
+                for h in st.handlers:
+                    h.body = repl(h.body)
+            out.append(st)
+        return out
+    new = pre + [_once(repl(body), s)]
+    for n in new:
+        ast.fix_missing_locations(n)
+    stats.append((caller.ref, callee.ref))
+    return _walk_list(repo, caller, new, known, caller_names | set(mapping.values()) | loc_, stack + [callee.ref], stats)
+
+
 def _walk_list(repo, caller, stmts, known, caller_names, stack, stats):
     out = []
     stmts = list(stmts)
@@ -397,6 +506,8 @@ def _walk_list(repo, caller, stmts, known, caller_names, stack, stats):
         if isinstance(s, (ast.If, ast.While)) and len(stack) <= MAX_DEPTH:
             s.test = _PredInliner(repo, caller, known, stats).visit(s.test)
         rep = _expand(repo, caller, s, known, caller_names, stack, stats)
+        if rep is None:
+            rep = _thread_if(repo, caller, s, known, caller_names, stack, stats)
         if rep is not None:
             out.extend(rep)
             continue
